@@ -1,5 +1,7 @@
 package main
 
+import "os"
+
 // Interval reasoning under the current path condition. Reads from layered byte memories compare an index against
 // copied ranges whose positions are symbolic (a header of symbolic length in front of a payload); without bounds
 // every such comparison becomes an if-then-else in the term and the solver has to rediscover, obligation by
@@ -441,8 +443,12 @@ func (b *boundsTab) rngD(t *Term, depth int) ival {
 
 // decideUnder: the truth value of an unsigned comparison when the intervals under the current path decide it,
 // else the term itself.
+// noBounds (GOVC_NO_BOUNDS=1): differential mode without interval reasoning; every obligation refuted here must also
+// be refuted in the normal mode (the simplifications only replace terms by equal terms under the path condition).
+var noBounds = os.Getenv("GOVC_NO_BOUNDS") != ""
+
 func decideUnder(c *Term) *Term {
-	if curPC == nil || c.S.K != SBool {
+	if noBounds || curPC == nil || c.S.K != SBool {
 		return c
 	}
 	switch c.Op {
@@ -530,7 +536,7 @@ func decideUnder(c *Term) *Term {
 // simpUnder: t with every sub-term of its sum structure whose value the current path fixes replaced by that
 // constant, and if-then-else terms with a decided condition resolved.
 func simpUnder(t *Term) *Term {
-	if curPC == nil || t.S.K != SBV || t.IsConst() {
+	if noBounds || curPC == nil || t.S.K != SBV || t.IsConst() {
 		return t
 	}
 	return simpUnderD(boundsOf(curPC), t, 0)
@@ -614,7 +620,7 @@ func simpUnderD(b *boundsTab, t *Term, depth int) *Term {
 
 // belowUnder: index i lies below a copied range [dst, dst+n) that cannot wrap around.
 func belowUnder(i, dst, n *Term) bool {
-	if curPC == nil {
+	if noBounds || curPC == nil {
 		return false
 	}
 	b := boundsOf(curPC)
